@@ -487,18 +487,18 @@ def envND (tbl : List (Nat × ND)) (tid : Nat) : ND :=
 
 /-- a value as the harness prints it: every handle comes with its hash -/
 inductive HV where
-  | plain (v : Val) | handle (tid hash : Nat) (p : HV) | list (vs : List HV) | tagged (i : Nat) (p : HV)
+  | plain (v : Val) | handle (tid hash : Nat) (dup : Bool) (p : HV) | list (vs : List HV) | tagged (i : Nat) (p : HV)
   deriving Inhabited
 
 partial def HV.toNVal : HV → NVal
   | .plain v => .plain v
-  | .handle tid _ p => .handle tid p.toNVal
+  | .handle tid _ _ p => .handle tid p.toNVal
   | .list vs => .list (vs.map HV.toNVal)
   | .tagged i p => .tagged i p.toNVal
 
 partial def HV.table : HV → List (Nat × NVal × Nat)
   | .plain _ => []
-  | .handle tid h p => (tid, p.toNVal, h) :: p.table
+  | .handle tid h _ p => (tid, p.toNVal, h) :: p.table
   | .list vs => (vs.map HV.table).flatten
   | .tagged _ p => p.table
 
@@ -507,12 +507,13 @@ mutual
     match d with
     | .plain pd => (parseV pd cs).map (fun (v, r) => (.plain v, r))
     | .handle tid => do
-      let (_, r) ← expect 'h' cs
+      -- `h` = a handle obtained by interning, `d` = a private copy (`Interned::new_duplicating`) the interner does not know
+      let (dup, r) ← (match cs with | 'h' :: r => some (false, r) | 'd' :: r => some (true, r) | _ => none)
       let (h, r) ← parseNat r
       let (_, r) ← expect '{' r
       let (p, r) ← parseHV env (env tid) r
       let (_, r) ← expect '}' r
-      some (.handle tid h p, r)
+      some (.handle tid h dup p, r)
     | .seq ed => do let (vs, r) ← parseHVs env cs (fun _ => some ed); some (.list vs, r)
     | .tup ds => do
       let (vs, r) ← parseHVs env cs (fun i => ds[i]?)
@@ -549,6 +550,29 @@ mutual
     | ']' :: r => some ([v], r)
     | _ => none
 end
+
+partial def HV.hasDup : HV → Bool
+  | .plain _ => false
+  | .handle _ _ dup p => dup || p.hasDup
+  | .list vs => vs.any HV.hasDup
+  | .tagged _ p => p.hasDup
+
+/-- the decoder-side interner in which a value is alive (an INPUT state, not a decoder step): its parts were interned
+    bottom-up — the allocation already alive under the key wins —, except the private copies (`d`), which get an
+    allocation number of their own (10^6 + n) that the interner does not know.  For a value without private copies this
+    is what decoding it once leaves behind. -/
+partial def warmWalk : HV → NInterner → Nat → DVal × NInterner × Nat
+  | .plain v, I, c => (.plain v, I, c)
+  | .handle tid h dup p, I, c =>
+    let (dp, I, c) := warmWalk p I c
+    if dup then (.handle tid (1000000 + c) dp, I, c + 1)
+    else match I.find (tid, h) with
+      | some (s, p') => (.handle tid s p', I, c)
+      | none => (.handle tid I.length dp, ((tid, h), dp) :: I, c)
+  | .list vs, I, c =>
+    let (ds, I, c) := vs.foldl (fun (acc, I, c) v => let (d, I, c) := warmWalk v I c; (acc ++ [d], I, c)) ([], I, c)
+    (.list ds, I, c)
+  | .tagged i p, I, c => let (dp, I, c) := warmWalk p I c; (.tagged i dp, I, c)
 
 partial def nbeq : NVal → NVal → Bool
   | .plain a, .plain b => a == b
@@ -618,15 +642,14 @@ def doN (mutated : Bool) (fields : List String) : String :=
           let bytes := encodeTop env hash t v
           -- warm: the decoder's interner is the encoder's, every original alive = what decoding once leaves behind
           let I0 : Option NInterner :=
-            if mode = "warm" then (match dec env hash nFuel t bytes [] with | .ok (_, _, I) => some I | .error _ => none)
-            else some []
+            if mode = "warm" then some (warmWalk hv [] 0).2.1 else some []
           match I0 with
           | none => "warm-failed"
           | some I0 =>
-            if mutated then nOutcome envD d bs.length (dec env hash nFuel t bs I0)
+            if mutated then nOutcome envD d bs.length (dec true env hash nFuel t bs I0)
             else
               let stream := bytes ++ bs
-              hex bytes ++ "|" ++ nOutcome envD d stream.length (dec env hash nFuel t stream I0)
+              hex bytes ++ "|" ++ nOutcome envD d stream.length (dec true env hash nFuel t stream I0)
       | _ => "bad-op"
     | _, _, _ => "bad-op"
   | _ => "bad-op"
@@ -671,13 +694,18 @@ def doK (fields : List String) : String :=
         let v := hv.toNVal
         if !wtN env t v || alive.any (fun (ad, av) => !wtN env ad.toNTy av.toNVal) then "ill-typed" else
         let hash := mkNHash (hv.table ++ (alive.map (fun (_, av) => av.table)).flatten)
-        let I0 : Option NInterner := aliveInterner env hash nFuel (alive.map (fun (ad, av) => (ad.toNTy, av.toNVal))) []
+        -- `aliveInterner` (the function of `interned_roundtrip_history`) when every alive value is canonical; with private
+        -- copies among them the interner is only `IOkW` (`interned_roundtrip_nested_weak`) and is given as an input state
+        let I0 : Option NInterner :=
+          if alive.any (fun (_, av) => av.hasDup) then
+            some (alive.foldl (fun (I, c) (_, av) => let (_, I, c) := warmWalk av I c; (I, c)) (([] : NInterner), 0)).1
+          else aliveInterner env hash nFuel (alive.map (fun (ad, av) => (ad.toNTy, av.toNVal))) []
         match I0 with
         | none => "alive-failed"
         | some I0 =>
           let bytes := encodeTop env hash t v
           let stream := bytes ++ junk
-          hex bytes ++ "|" ++ nOutcome envD d stream.length (dec env hash nFuel t stream I0)
+          hex bytes ++ "|" ++ nOutcome envD d stream.length (dec true env hash nFuel t stream I0)
       | _, _ => "bad-op"
     | _, _, _ => "bad-op"
   | _ => "bad-op"
